@@ -4,7 +4,7 @@ From Coq Require Import String List Arith Bool ZArith Lia Permutation Sorted.
 Import ListNotations.
 Require Import MV.Lib.Base MV.C03.Gen MV.C03.Model MV.C03.Run MV.C03.Proofs_Base MV.C03.Proofs_Simplex
         MV.C03.Proofs_Incidence MV.C03.Proofs_Complete MV.C03.Proofs_Incidence2 MV.C03.Proofs_Border
-        MV.C03.Proofs_Orient MV.C03.Proofs_Maps MV.C03.Proofs_Ring.
+        MV.C03.Proofs_Orient MV.C03.Proofs_Maps MV.C03.Proofs_Ring MV.C03.Proofs_Closed.
 Local Open Scope nat_scope.
 
 Definition faces_of (cells : list (list nat)) : list (list nat) := complete_faces [] cells.
@@ -118,6 +118,14 @@ Section Main.
                    (seq 0 (length (edges_of cells))).
   Proof. split; [apply faces_partition|]. split; [apply vertices_partition|apply edges_partition]. Qed.
 
+  (* --- the boundary is closed *)
+  Theorem boundary_closed :
+    conforming cells -> forall E, edge_ok E ->
+    Nat.even (length (filter (fun f => subsetb E (face cells f)) bf)) = true.
+  Proof.
+    intros Cf E HE. apply (border_faces_around_even cells (faces_of cells) H Hf Cf Hmin E HE).
+  Qed.
+
   (* --- standalone extractor: stored order = convention order of a cell containing the face; outward if that cell is positive *)
   Theorem standalone_faces_outward pos f :
     f < length (faces_of cells) ->
@@ -184,6 +192,9 @@ Proof. split; [apply tet_meshb_spec|apply conformingb_spec]; vm_compute; reflexi
 Example cube5_has_interior_and_border_faces :
   length (t_bf (tables cube5)) = 12 /\ length (interior_faces (faces_of cube5) (t_f2c (tables cube5))) = 4.
 Proof. vm_compute. split; reflexivity. Qed.
+Example cube5_edge_0_3_has_two_border_faces :
+  length (filter (fun f => subsetb [0; 3] (face cube5 f)) (t_bf (tables cube5))) = 2.
+Proof. vm_compute. reflexivity. Qed.
 Example two_tets_is_a_conforming_tet_mesh : tet_mesh two_tets_on_an_edge /\ conforming two_tets_on_an_edge.
 Proof. split; [apply tet_meshb_spec|apply conformingb_spec]; vm_compute; reflexivity. Qed.
 
